@@ -2,6 +2,7 @@ package main
 
 import (
 	"encoding/binary"
+	"fmt"
 	"math/big"
 
 	didtypes "github.com/SaoNetwork/sao/x/did/types"
@@ -180,7 +181,7 @@ func (c *Chain) dumpRest(ctx sdk.Context) []Table {
 	for _, v := range app.StakingKeeper.GetAllValidators(ctx) {
 		vals = append(vals, kv{v.OperatorAddress, L(decV(v.DelegatorShares), intV(v.Tokens), Z(int64(v.Status)))})
 		for _, d := range app.StakingKeeper.GetValidatorDelegations(ctx, v.GetOperator()) {
-			dels = append(dels, kv{d.DelegatorAddress + "|" + d.ValidatorAddress, L(S(d.DelegatorAddress), S(d.ValidatorAddress), decV(d.Shares))})
+			dels = append(dels, kv{delKey(d.DelegatorAddress, d.ValidatorAddress), L(S(d.DelegatorAddress), S(d.ValidatorAddress), decV(d.Shares))})
 		}
 	}
 	tabs = append(tabs, Table{"staking.Validator", SMap(vals)}, Table{"staking.Delegation", SMap(dels)})
@@ -211,4 +212,11 @@ func (c *Chain) accountList() []*Account {
 		out = append(out, a)
 	}
 	return out
+}
+
+// delKey orders delegations the way the staking store does: by raw address bytes.
+func delKey(del, val string) string {
+	d, _ := sdk.AccAddressFromBech32(del)
+	v, _ := sdk.ValAddressFromBech32(val)
+	return fmt.Sprintf("%x|%x", []byte(d), []byte(v))
 }
